@@ -135,6 +135,13 @@ reg('C15', 'grid', 'exploration',
     'Distance of a spelling = get_distance; tabulated distances = km column; rows sharing a distance (track and road variants) all count as bracketing.',
     'bounded exhaustive enumeration of the distance axis (betweenness / monotonicity relations)', 'DESIGN.md 2.5, 3/C15')
 
+reg('C17', 'grid', 'exploration',
+    'The complete cross product {SP,DT,HT,JT,WT} x {M,F} x every age-group label the library can produce (U9..U20, SEN, V35..V130) and 17 other labels: the built '
+    'code is a valid, already normalised throws code whose weight equals the implement table; consecutive masters bands never get heavier; every other code of '
+    'the generated event-code language passes through unchanged; every key of every bundled scoring / age-grading table is accepted by check_event_code.',
+    'Finite spaces enumerated completely; the pass-through clause uses the generated language of C07 (structure exhaustive, fills by covering scheme).',
+    'bounded exhaustive enumeration of the configuration cross product', 'DESIGN.md 2.5, 3/C17')
+
 ALL = ['C%02d' % i for i in range(1, 20)]
 PENDING_REASON = 'check not yet built in this session (planned, see DESIGN.md section 7); not claimed until it runs clean'
 
